@@ -1,8 +1,173 @@
+import DeapModel.Core.Cma
 import Driver.Proto
-/-! Protocol handler for C13 (stub until the model is built). -/
+/-!
+Protocol handler for C13 (`deap.cma.Strategy`), `Float` instance of `Core/Cma.lean`.
+
+Vectors and matrices are printed *normalised*: first the scale `m = max |entry|`, then the entries
+divided by `m` (so the harness' relative/absolute tolerance is relative to the size of the whole
+quantity, not of one entry that may be the result of cancellation); `m = 0` prints the raw entries.
+
+  params  dim lambda mu|- scheme cs|- damps|- ccum|- ccov1|- ccovmu|-
+  init    centroid sigma lambda|- mu|- scheme cs|- damps|- ccum|- ccov1|- ccovmu|- cmatrix|- w V indx
+  update  <state> keys pop w V indx          (code form + eigen post-processing)
+  spec    <state> keys pop                   (published form)
+  generate dim centroid sigma BD arz
+  sort    keys
+  <state> = dim mu weights mueff cc cs ccov1 ccovmu damps chiN count centroid sigma pc ps C B diagD
+-/
 namespace DriverC13
+open Proto Cma
+
+def fabs (x : Float) : Float := Float.abs x
+
+def maxAbs (v : List Float) : Float := v.foldl (fun m x => if fabs x > m then fabs x else m) 0.0
+
+def showScaled (m : Float) (v : List Float) : String :=
+  if m > 0.0 && m.isFinite then showList showFloat (v.map (· / m)) else showList showFloat v
+
+def showVecN (v : List Float) : String :=
+  let m := maxAbs v
+  showFloat m ++ " " ++ showScaled m v
+
+def showMatN (M : List (List Float)) : String :=
+  let m := maxAbs (M.map maxAbs)
+  showFloat m ++ " " ++ (if M.isEmpty then "-" else ";".intercalate (M.map (showScaled m)))
+
+def optFloat (s : String) : Option (Option Float) :=
+  if s = "-" then some none else (parseFloat s).map some
+
+def optNat (s : String) : Option (Option Nat) :=
+  if s = "-" then some none else (parseNat s).map some
+
+def vec (s : String) : Option (List Float) := parseList parseFloat s
+def mat (s : String) : Option (List (List Float)) := parseList2 parseFloat s
+
+def showParams (p : Params Float) : String :=
+  toString p.mu ++ " " ++ showVecN p.weights ++ " " ++ " ".intercalate
+    [showFloat p.mueff, showFloat p.cc, showFloat p.cs, showFloat p.ccov1, showFloat p.ccovmu, showFloat p.damps]
+
+def parseOver (lam mu scheme cs damps ccum ccov1 ccovmu : String) (cm : Option (List (List Float))) :
+    Option (Option (Over Float)) := do
+  let lam ← optNat lam
+  let mu ← optNat mu
+  let cs ← optFloat cs
+  let damps ← optFloat damps
+  let ccum ← optFloat ccum
+  let ccov1 ← optFloat ccov1
+  let ccovmu ← optFloat ccovmu
+  match Scheme.ofString? scheme with
+  | none => pure none          -- RuntimeError("Unknown weights")
+  | some sch => pure (some { lambda_ := lam, mu := mu, cmatrix := cm, scheme := sch, cs := cs, damps := damps,
+                             ccum := ccum, ccov1 := ccov1, ccovmu := ccovmu })
+
+def parseState (t : List String) : Option (State Float) :=
+  match t with
+  | [dim, mu, weights, mueff, cc, cs, ccov1, ccovmu, damps, chiN, count, centroid, sigma, pc, ps, C, B, diagD] => do
+    let dim ← parseNat dim
+    let mu ← parseNat mu
+    let weights ← vec weights
+    let mueff ← parseFloat mueff
+    let cc ← parseFloat cc
+    let cs ← parseFloat cs
+    let ccov1 ← parseFloat ccov1
+    let ccovmu ← parseFloat ccovmu
+    let damps ← parseFloat damps
+    let sigma ← parseFloat sigma
+    let chiN ← parseFloat chiN
+    let count ← parseNat count
+    let par : Params Float := { mu := mu, weights := weights, mueff := mueff, cc := cc, cs := cs, ccov1 := ccov1, ccovmu := ccovmu, damps := damps }
+    let centroid ← vec centroid
+    let pc ← vec pc
+    let ps ← vec ps
+    let C ← mat C
+    let B ← mat B
+    let diagD ← vec diagD
+    if !(isVec dim centroid && isVec dim pc && isVec dim ps && isVec dim diagD && isMat dim dim C && isMat dim dim B
+         && isVec mu weights) then none
+    else pure { dim := dim, centroid := centroid, sigma := sigma, pc := pc, ps := ps,
+                chiN := chiN, C := C, diagD := diagD, B := B, BD := [], cond := 0.0, lambda_ := 0,
+                updateCount := count, par := par }
+  | _ => none
+
+def parsePop (s : State Float) (keys pop : String) : Option (List (FitKey Float × List Float)) := do
+  let ks ← mat keys
+  let xs ← mat pop
+  if ks.length != xs.length then none else
+  let p := (ks.map FitKey.mk).zip xs
+  if popOk s p then pure p else none
+
+def showCore (c : Core Float) : String :=
+  " ".intercalate [showVecN c.centroid, showVecN c.ps, showFloat c.hsig, showVecN c.pc, showMatN c.C, showFloat c.sigma]
+
+def showEig (e : Eig Float) : String :=
+  " ".intercalate [showVecN e.diagD, showMatN e.B, showMatN e.BD, showFloat e.cond]
 
 def handle : List String → String
+  | ["params", dim, lam, mu, scheme, cs, damps, ccum, ccov1, ccovmu] =>
+    match (do let d ← parseNat dim; let l ← parseNat lam
+              let o ← parseOver "-" mu scheme cs damps ccum ccov1 ccovmu none; pure (d, l, o)) with
+    | some (d, l, some o) =>
+      if o.mu.getD (l / 2) = 0 then "error ZeroDivisionError" else showParams (computeParams d l o)
+    | some (_, _, none) => "error RuntimeError"
+    | none => "bad-op"
+  | ["init", centroid, sigma, lam, mu, scheme, cs, damps, ccum, ccov1, ccovmu, cmatrix, w, V, indx] =>
+    match (do
+      let c ← vec centroid
+      let sg ← parseFloat sigma
+      let cm ← if cmatrix = "-" then some none else (mat cmatrix).map some
+      let o ← parseOver lam mu scheme cs damps ccum ccov1 ccovmu cm
+      let w ← vec w; let V ← mat V; let indx ← parseList parseNat indx
+      let cmOk := match cm with
+        | some m => isMat c.length c.length m
+        | none => true
+      if !(isVec c.length w && isMat c.length c.length V && cmOk) then none else
+      pure (c, sg, o, w, V, indx)) with
+    | some (c, sg, some o, w, V, indx) =>
+      let s := init (fun _ => (w, V)) (fun _ => indx) c sg o
+      if s.par.mu = 0 then "error ZeroDivisionError" else
+      " ".intercalate [toString s.dim, toString s.lambda_, showFloat s.chiN, showVecN s.pc, showVecN s.ps, showMatN s.C,
+        showVecN s.diagD, showMatN s.B, showMatN s.BD, showFloat s.cond, toString s.updateCount,
+        showBool (isArgsort s.dim w indx), showParams s.par]
+    | some (_, _, none, _, _, _) => "error RuntimeError"
+    | none => "bad-op"
+  | "update" :: rest =>
+    if rest.length != 23 then "bad-op" else
+    match (do
+      let s ← parseState (rest.take 18)
+      let p ← parsePop s (rest.getD 18 "") (rest.getD 19 "")
+      let w ← vec (rest.getD 20 ""); let V ← mat (rest.getD 21 ""); let indx ← parseList parseNat (rest.getD 22 "")
+      if !(isVec s.dim w && isMat s.dim s.dim V) then none else
+      pure (s, p, w, V, indx)) with
+    | some (s, p, w, V, indx) =>
+      let s' := update (fun _ => (w, V)) (fun _ => indx) s p
+      " ".intercalate [showVecN s'.centroid, showVecN s'.ps, showVecN s'.pc, showMatN s'.C, showFloat s'.sigma,
+        toString s'.updateCount, showEig ⟨s'.diagD, s'.B, s'.BD, s'.cond⟩, showBool (isArgsort s.dim w indx)]
+    | none => "bad-op"
+  | "spec" :: rest =>
+    if rest.length != 20 then "bad-op" else
+    match (do
+      let s ← parseState (rest.take 18)
+      let p ← parsePop s (rest.getD 18 "") (rest.getD 19 "")
+      pure (s, p)) with
+    | some (s, p) => showCore (updateSpec s (selectBest s.par.mu p))
+    | none => "bad-op"
+  | ["generate", dim, centroid, sigma, BD, arz] =>
+    match (do
+      let d ← parseNat dim
+      let c ← vec centroid; let sg ← parseFloat sigma; let bd ← mat BD; let z ← mat arz
+      if !(isVec d c && isMat d d bd && z.all (fun r => r.length == d)) then none else
+      pure (d, c, sg, bd, z)) with
+    | some (d, c, sg, bd, z) =>
+      let s : State Float := { dim := d, centroid := c, sigma := sg, pc := [], ps := [], chiN := 0.0, C := [], diagD := [], B := [], BD := bd, cond := 0.0, lambda_ := z.length, updateCount := 0, par := { mu := 0, weights := [], mueff := 0.0, cc := 0.0, cs := 0.0, ccov1 := 0.0, ccovmu := 0.0, damps := 0.0 } }
+      let pts := generate s z (fun x => x)
+      toString pts.length ++ " " ++ showMatN pts
+    | none => "bad-op"
+  | ["sort", keys] =>
+    match mat keys with
+    | some ks =>
+      let p : List (FitKey Float × Nat) := (ks.map FitKey.mk).zip (List.range ks.length)
+      showList toString ((sortDesc p).map Prod.snd)
+    | none => "bad-op"
   | _ => "bad-op"
 
 end DriverC13
